@@ -446,5 +446,136 @@ def evalF (f : Bytes → StepRes) : Tag → Option Bytes
 
 def eval (cfg : Cfg) (t : Tag) : Option Bytes := evalF (repl cfg) t
 
+/-! ### Configure.Set: the override layer
+
+  configure/binder/viper.go:44-46            Set = viper.Set
+  github.com/spf13/viper@v1.19.0 viper.go    Set (lower-cased path, toCaseInsensitiveValue, deepSearch), find (the override layer first —
+                                             searchMap: maps only, no list index —, then, unless a set scalar shadows the path —
+                                             isPathShadowedInDeepMap —, the merged documents), AllSettings (every leaf key of either
+                                             layer, valued by Get)
+  Nothing remembers an earlier lookup: `Layers.get` is a function of the two layers as they are now. -/
+
+/-- what was handed to Set (composed), over the merged documents -/
+structure Layers where
+  over : Cfg
+  conf : Cfg
+
+mutual
+  /-- util.go copyAndInsensitiviseMap: the keys of a map handed to Set, and of the maps inside it, in lower case (a later
+      duplicate of a key replaces the earlier one) -/
+  def lowerKeys : CVal → CVal
+    | .map kvs => .map (lowerKeysM kvs)
+    | .null => .null
+    | .str s => .str s
+    | .num t => .num t
+    | .bool b => .bool b
+    | .list xs => .list xs
+  def lowerKeysM : List (Bytes × CVal) → List (Bytes × CVal)
+    | [] => []
+    | (k, v) :: rest => ainsert (lower k) (lowerKeys v) (lowerKeysM rest)
+end
+
+/-- viper.go deepSearch and the final store of Set: an intermediate key that holds no map gets a fresh one -/
+def deepSet (m : Cfg) : List Bytes → CVal → Cfg
+  | [], _ => m
+  | [k], v => ainsert k v m
+  | k :: k2 :: rest, v =>
+    let sub := match alookup k m with
+      | some (.map m') => m'
+      | _ => []
+    ainsert k (.map (deepSet sub (k2 :: rest) v)) m
+
+/-- ViperBinder.Set -/
+def Layers.set (l : Layers) (path : Bytes) (v : CVal) : Layers :=
+  { l with over := deepSet l.over (splitDots (lower path)) (lowerKeys v) }
+
+def Layers.setAll (l : Layers) : List (Bytes × CVal) → Layers
+  | [] => l
+  | (p, v) :: rest => (l.set p v).setAll rest
+
+/-- viper.go searchMap on the override layer: `none` = Go nil (absent, a stored nil, or a scalar / list on the way) -/
+def searchOver : Cfg → List Bytes → Option CVal
+  | m, [] => some (.map m)
+  | m, k :: rest =>
+    match alookup k m with
+    | none => none
+    | some v =>
+      match rest with
+      | [] => nilToNone v
+      | _ :: _ =>
+        match v with
+        | .map m' => searchOver m' rest
+        | _ => none
+
+/-- viper.go isPathShadowedInDeepMap -/
+def shadowedFrom (m : Cfg) (path : List Bytes) : Nat → Nat → Bool
+  | 0, _ => false
+  | fuel + 1, i =>
+    if i ≥ path.length then false
+    else match searchOver m (path.take i) with
+      | none => false
+      | some (.map _) => shadowedFrom m path fuel (i + 1)
+      | some _ => true
+
+def shadowed (m : Cfg) (path : List Bytes) : Bool := shadowedFrom m path path.length 1
+
+/-- ViperBinder.Get over the two layers, for a non-empty path -/
+def Layers.getPath (l : Layers) (p : List Bytes) : GetRes :=
+  match searchOver l.over p with
+  | some v => .val (some v)
+  | none => if p.length > 1 && shadowed l.over p then .val none else search (.map l.conf) p
+
+mutual
+  /-- viper.go flattenAndMergeMap for dot-free keys (a key = its list of segments): the leaf keys of a layer added to
+      `seen`; a section whose own path is already a leaf key of an earlier layer is shadowed and skipped; an empty map
+      contributes nothing, everything that is not a map (nil and lists included) is a leaf -/
+  def flattenVal (seen : List (List Bytes)) (pre : List Bytes) : CVal → List (List Bytes)
+    | .map kvs => if seen.contains pre then seen else flattenMap seen pre kvs
+    | _ => if seen.contains pre then seen else seen ++ [pre]
+  def flattenMap (seen : List (List Bytes)) (pre : List Bytes) : List (Bytes × CVal) → List (List Bytes)
+    | [] => seen
+    | (k, v) :: rest => flattenMap (flattenVal seen (pre ++ [k]) v) pre rest
+end
+
+/-- viper.go AllKeys: override layer first, then the documents -/
+def Layers.allKeys (l : Layers) : List (List Bytes) :=
+  flattenMap (flattenMap [] [] l.over) [] l.conf
+
+/-- viper.go getSettings: the map rebuilt key by key from Get (a key whose Get is nil is left out; the value of a key is
+    whatever Get answers, a whole map of the override layer included) -/
+def Layers.settingsFrom (l : Layers) : List (List Bytes) → Cfg → Cfg
+  | [], m => m
+  | k :: rest, m =>
+    match l.getPath k with
+    | .val (some v) => l.settingsFrom rest (deepSet m k v)
+    | _ => l.settingsFrom rest m
+
+/-- ViperBinder.Get over the two layers; the empty path is AllSettings (with nothing set: `get`) -/
+def Layers.get (l : Layers) (key : Bytes) : GetRes :=
+  if key.isEmpty then
+    if l.over.isEmpty then .val (some (.map (pruneMap l.conf)))
+    else .val (some (.map (l.settingsFrom l.allKeys [])))
+  else l.getPath (splitDots (lower key))
+
+/-- the callback over the two layers (as `repl`) -/
+def replL (l : Layers) (content : Bytes) : StepRes :=
+  let (key, dflt) := splitColon content
+  match l.get key with
+  | .panic => .panic
+  | .val v =>
+    if isAbsent v then defaultAnswer dflt
+    else .ok (formatOpt v)
+
+/-- PostProcessProperties for one property under the configuration as it is now (as `process`) -/
+def processL (l : Layers) (tagStr : Bytes) : Res :=
+  match findFirst tagStr with
+  | none => .value tagStr
+  | some _ => loopF (replL l) Facts.replaceBound (fuelFor Facts.replaceBound) 0 tagStr
+
+/-- a history: the tags resolved, paths set, the tags resolved again — each resolution on a fresh property -/
+def resolveTwice (cfg : Cfg) (ops : List (Bytes × CVal)) (tags : List Bytes) : List Res × List Res :=
+  let l0 : Layers := ⟨[], cfg⟩
+  (tags.map (processL l0), tags.map (processL (l0.setAll ops)))
+
 end Placeholder
 end Ioc
